@@ -23,7 +23,7 @@ def wrap_run(pid, tier, seed, kinds, targets, buildlen, wraplen):
             run.cov["transitions"] += r["generated"]
             run.cov["tlc_runs"].append({"model": "WrapSpec", "kind": kind, "base": target, "build_len": buildlen,
                                         "wrapper_calls": wraplen, "generated": r["generated"], "distinct": r["distinct"],
-                                        "checked": ["RoNeverChangesBase", "RoRefusesMutators"]})
+                                        "checked": ["RoNeverChangesBase", "RoRefusesMutators", "InjectedIsReturned"]})
             run.replay(edges, target)
             if not run.cov["samples"]:
                 with open(edges) as f:
@@ -45,5 +45,16 @@ def check_c09(tier, seed):
         run.cov["exhaustive"] = True
         run.cov["universe"] = "base trees built by <=%d elementary calls over names {a,b}; <=%d calls through RoFS incl. handle methods on files it returns and Sub+mutator" % ((2, 2) if q else (3, 3))
         return nscheck.finish(run, "C09", extra_assumptions=["modification times are compared through a digest of every ModTime of the base tree logged around every wrapper call"])
+    finally:
+        run.close()
+
+
+def check_c12(tier, seed):
+    q = tier == "quick"
+    run = wrap_run("C12", tier, seed, ["failfs", "failro"], ["memfs", "orefafs"], 1 if q else 2, 2 if q else 3)
+    try:
+        run.cov["exhaustive"] = True
+        run.cov["universe"] = "base trees built by <=%d elementary calls; plans: none, ReadOnlyFunc, and 'the 1st/2nd consultation of F fails' for 30 primitives F; <=%d calls through the wrapper, each consulting the planned primitive until the plan fires" % ((1, 2) if q else (2, 3))
+        return nscheck.finish(run, "C12", extra_assumptions=["the injected error is a sentinel; the sequence of consulted primitives of every call is logged by the failure function and must equal the specification's"])
     finally:
         run.close()
